@@ -63,16 +63,10 @@ func (g *GhostDB) viewOf(env *SpecEnv, st *State, name string, obj TV) TV {
 			}
 			args = append(args, env.optTerm(p, cur.T))
 		case "mesg":
-			p, ok := g.x.force(st, cur.V).(VPtr)
-			if !ok || p.Loc == nil {
-				args = append(args, Term{"json.null", SBytes})
-				break
+			// the three fields of *message.Mesg
+			for _, fn := range []string{"Type", "Root", "Leaf"} {
+				args = append(args, env.term(env.selectField(cur, fn)))
 			}
-			t, ok := g.x.structJSON(st, p, cur.T)
-			if !ok {
-				env.fail("view field %s is not a flat struct", f.path)
-			}
-			args = append(args, Ite(p.Nil, Term{"json.null", SBytes}, t))
 		default:
 			args = append(args, env.term(cur))
 		}
@@ -86,6 +80,21 @@ func (g *GhostDB) linBuiltin(env *SpecEnv, st *State, name string, args []TV) (T
 		return TV{}, false
 	}
 	switch {
+	case name == "anykey" && len(args) == 1:
+		return TV{VScalar{g.x.sym.Named("anykey."+env.term(args[0]).S, SStr)}, types.Typ[types.String]}, true
+	case name == "count_pre" && len(args) >= 2:
+		tn, ok1 := g.x.sym.LitValue(env.term(args[0]).S)
+		pred, ok2 := g.x.sym.LitValue(env.term(args[1]).S)
+		if !ok1 || !ok2 || env.lin.Pre[tn] == nil {
+			return TV{}, false
+		}
+		var cargs []Term
+		for _, a := range args[2:] {
+			cargs = append(cargs, env.term(a))
+		}
+		t := g.countTerm(env.lin.Pre[tn], pred, cargs)
+		st.assume(Ge(t, IntLit(0)))
+		return TV{VScalar{t}, types.Typ[types.Int64]}, true
 	case name == "T" && args == nil:
 		return TV{VScalar{env.lin.T}, types.Typ[types.Int64]}, true
 	case strings.HasPrefix(name, "pre_") && len(args) == 1:
